@@ -1251,12 +1251,11 @@ rrul_fill_mly(echs_instant_t *restrict tgt, size_t nti, rrulsp_t rr)
 		}
 		/* now skip to the first instance */
 		while (!bui31_has_bit_p(rr->mon, m)) {
-			if ((m += rr->inter) > 12) {
-				m--;
-				y += m / 12;
-				m %= 12;
-				m++;
-			}
+			/* step in unsigned, INTERVAL may be as big as INT_MAX */
+			const unsigned int um = (unsigned int)(m - 1) + rr->inter;
+
+			y += um / 12U;
+			m = (int)(um % 12U) + 1;
 		}
 	}
 
@@ -1264,14 +1263,13 @@ rrul_fill_mly(echs_instant_t *restrict tgt, size_t nti, rrulsp_t rr)
 	for (res = 0UL, tries = 64U; res < nti && --tries && y < 4095U;
 	     ({
 		     do {
-			     if ((m += rr->inter) > 12) {
-				     m--;
-				     y += m / 12;
-				     m %= 12;
-				     m++;
-			     }
+			     /* step in unsigned, INTERVAL may be as big as INT_MAX */
+			     const unsigned int um = (unsigned int)(m - 1) + rr->inter;
+
+			     y += um / 12U;
+			     m = (int)(um % 12U) + 1;
 		     } while (bui31_has_bits_p(rr->mon) &&
-			      !bui31_has_bit_p(rr->mon, m));
+			      !bui31_has_bit_p(rr->mon, m) && y < 4095U);
 	     })) {
 		bitint383_t cand[3U] = {0U};
 		int yd;
